@@ -295,7 +295,9 @@ def check_C03(chk):
         for npk in (2, 3):
             for k in range(0, 1 + (3 + npk) + 3):
                 for surv in (0, 1):
-                    ccases.append({"id": next(cid), "len": shapes[npk], "k": k, "survivor": surv, "natt": 0, "nreg": 0,
+                    # (every other kill point: the interrupted message embeds the sender of ANOTHER channel, whose receiver the program keeps -
+                    # that channel too must report 'disconnected' once the message is discarded)
+                    ccases.append({"id": next(cid), "len": shapes[npk], "k": k, "survivor": surv, "natt": k % 2, "nreg": 0,
                                    "observe": ["recv", "try", "timeout", "select"][(k + surv) % 4], "npk": npk, "S": 4096})
         for it in PCN.run_crash(bins["default"], 4096, ccases):
             why = PCN.crash_oracle(it)
@@ -355,6 +357,9 @@ def check_C19(chk):
                     chk.failing_input("a receiver set with a burst pending on the %s build (the ideal channel and the other builds deliver everything): %s" % (fl, why),
                                       {"build": fl, "plan": PS.plan_str(c["plans"])}, key="c19set:%s:%s" % (fl, PS.plan_str(c["plans"])[:120]))
             chk.coverage.setdefault("set_burst_scenarios", {})[fl] = len(bby)
+        # the three receive variants mixed (a blocking receive after an 'empty' try_recv really waits, a timed one ends early on a message
+        # or a hang-up, ...): every build has to give the answers of the ideal channel
+        PS.timed_slice(chk, bins, ["default", "memfd", "inprocess"], 40 if thorough else 10, 37, "mixed receive variants")
 
 
 def api_stage(chk, prop, bins, flavours, nprog, nops, seed_off=21, p_poison=0.08):
@@ -556,7 +561,7 @@ def check_C11(chk):
     tmp = os.path.join(C.BUILD, "tmp", "res-%d" % os.getpid())
     os.makedirs(tmp, exist_ok=True)
     names = ["connect_missing", "server_unused", "server_cycle", "connect_after_accept", "shm_cycle", "set_cycle", "send_closed_att",
-             "undecoded_drop", "server_bad_tmpdir", "router_cycle", "ser_fail_att", "connect_long", "server_noshow", "server_bad_first", "send_closed_big_att"]
+             "undecoded_drop", "undecoded_low_fd", "server_bad_tmpdir", "router_cycle", "ser_fail_att", "connect_long", "server_noshow", "server_bad_first", "send_closed_big_att"]
     for fl in ("default", "memfd"):
         recs, trace, rc, err = C.run_harness(bins[fl], "res", ["scen name=%s n=%d" % (s, n) for s in names] + ["inherit"],
                                              env_extra={"TMPDIR": tmp}, timeout=900)
